@@ -544,6 +544,7 @@ package netty
 //@   loop 0 modifies none
 //@   loop 0 emits
 //@   loop 0 invariant chinv(c)
+//@   loop 0 exit bounded_wait_gives_up_after_ten_polls@C06: c.untilWrite || maxWaitNum >= 10 || (nemitted() >= 2 && evis(nemitted()-1, "load c.running") && evres(nemitted()-1, 0) == 0 && evis(nemitted()-2, "len c.writeQueue") && evres(nemitted()-2, 0) == 0)
 //@   loop 0 invariant polls_every_100ms@C06: implies(nemitted() > 0, (maxWaitNum == atheader(maxWaitNum) + 1 || atheader(maxWaitNum) >= 1<<62) && count("time.Sleep") == 1 && evis(nemitted()-1, "time.Sleep") && evarg(nemitted()-1, 0) == 100000000)
 //@   ensures elected_by_cas: evis(0, "cas c.closed") && evarg(0, 0) == 0 && evarg(0, 1) == 1 && count("cas c.closed") >= 1
 //@   ensures loser_does_nothing: implies(!evres(0, 0), nemitted() == 1)
@@ -553,7 +554,6 @@ package netty
 //@   ensures inactive_carries_the_winning_error: implies(evres(0, 0), evarg(first("Pipeline.FireChannelInactive"), 0) == err)
 //@   ensures sync_channel_does_not_wait: implies(evres(0, 0) && old(c.writeQueue) == nil, count("load c.running") == 0 && count("time.Sleep") == 0)
 //@   ensures waits_for_sender: implies(evres(0, 0) && old(c.writeQueue) != nil && old(c.untilWrite), evis(first("net.Conn.Close") - 2, "load c.running") && evres(first("net.Conn.Close") - 2, 0) == 0)
-//@   ensures bounded_wait_gives_up_after_ten_polls@C06: implies(evres(0, 0) && old(c.writeQueue) != nil && !old(c.untilWrite) && !evis(first("net.Conn.Close") - 2, "load c.running") && !evis(first("net.Conn.Close") - 2, "len c.writeQueue"), maxWaitNum >= 10)
 //@   ensures observes_queue_empty_then_idle@C06: implies(evres(0, 0) && old(c.writeQueue) != nil && old(c.untilWrite), evis(first("net.Conn.Close") - 3, "len c.writeQueue") && evres(first("net.Conn.Close") - 3, 0) == 0)
 //@   ensures error_published_before_cancel@C11_C12: implies(evres(0, 0), count("Store") == 1 && first("Store") < first("context.CancelFunc"))
 //@ order (*channel).Close: "cas c.closed" dominates "net.Conn.Close"
